@@ -281,6 +281,18 @@ func (m *FieldMap) Remove(tag Tag) {
 	defer m.rwLock.Unlock()
 
 	delete(m.tagLookup, tag)
+
+	// Drop the tag from the ordering list as well; a stale entry would be appended a
+	// second time by the next set of this tag and the field would be written twice.
+	// The order of m.tags is irrelevant (sortedTags sorts before writing).
+	for i, t := range m.tags {
+		if t == tag {
+			last := len(m.tags) - 1
+			m.tags[i] = m.tags[last]
+			m.tags = m.tags[:last]
+			break
+		}
+	}
 }
 
 // Clear purges all fields from field map.
